@@ -61,7 +61,7 @@ def r05_4(ctx):
         ctx.ob('R05.4', 'on_hard_timeout:kills-the-jobs-own-worker', ok, fi, kc, detail)
     pb = m.func('pool:TimeoutHandler._process_by_pid')
     ok = any(isinstance(x, ast.Compare) and isinstance(x.ops[0], ast.Eq) and
-             {ast.unparse(x.left).split('.')[-1], ast.unparse(x.comparators[0])} == {'pid', pb.positional_params()[1]}
+             {ast.unparse(x.left).split('.')[-1], ast.unparse(x.comparators[0]).split('.')[-1]} == {'pid', pb.positional_params()[1]}
              for x in ast.walk(pb.node))
     ctx.ob('R05.4', '_process_by_pid:matches-on-pid', ok, pb, None, 'selects the process whose pid equals the argument')
     tk = m.func('pool:TimeoutHandler._trywaitkill')
